@@ -24,6 +24,19 @@ CLAIMED = {
         "note": "Structural clauses only: the recomputation formulas (CP = Q/dT, htr = 1/htc) and numeric equality are NOT decided. "
                 "Direct assignment of derived attributes (CP, t_min, ...) by a caller is outside the property's quantifier.",
     },
+    "C16": {
+        "category": "other",
+        "technique": "static analysis: None-guard memo invalidation dataflow on PinchProblem; DataFrame-typed call sites checked against the installed pandas attribute table; "
+                     "string-length abstract interpretation (linear upper-bound terms) proving sheet names <= 31 for all names, uniqueness discipline and sanitiser "
+                     "character class (re._parser); reader column tables vs schema required fields; sibling-reader helper agreement",
+        "text": "Decides the structural clauses of C16: every path of PinchProblem.load that stores a new problem leaves the cached result reset (all load/target "
+                "histories); the CSV/workbook readers only call DataFrame methods that exist in the installed pandas; exported sheet names are at most 31 characters, "
+                "free of forbidden characters and unique within a workbook for ALL zone/target names (a proof over symbolic string lengths, not a sample); "
+                "the reader column tables cover every required schema field and both readers share the record helpers.",
+        "design_ref": "DESIGN.md 3.2 MEMO, API, BOUND, TABLE T5",
+        "note": "Numeric equality of targets across channels is NOT decided; label normalisation of individual cells (whitespace, digits) is data-dependent and NOT decided. "
+                "Trusted: CPython ast, re._parser, the installed pandas attribute table.",
+    },
 }
 
 _NOT_BUILT = "claimed in DESIGN.md but the check is not built yet in this round"
